@@ -63,6 +63,9 @@ var c20Plants = []string{
 	"va, vb = vc, vb", "M.x, va = vb, va", "va, vb = va, vc", "va, vb, vc = va, vb, vc", "va, vb, vc = vb, vb, vc", "va.f, vb = va.f, vc",
 	// 21 float equality
 	"if %v == 1.5 then end", "if 0.1 ~= %v then end", "if %v == 1 then end", "if %v < 1.5 then end", "if %v == 1e2 then end", "local e%d = %v == 0x.8",
+	// 21 near-misses: a float literal as the LEFT (or right) operand of an operator that is no equality test
+	"local e%d = 0.5 * %v", "local e%d = %v * 0.5", "if 1.5 < %v then end", "local e%d = 2.0 ^ %v", "local e%d = 0.25 .. \"s\"", "local e%d = 0.5 or %v", "local e%d = %v and 0.5",
+	"local e%d = { w = 0.5 + %v, function() return 1.0 / %v end }", "if 1.5 <= %v then elseif 2.5 >= %v then end",
 }
 
 func genC20Program(r *lib.Rng) string {
